@@ -720,7 +720,7 @@ func init() {
 	register(&Rule{ID: "ORD-18c", Title: "the not-found sentinel travels unchanged from the segment lookup to WAL.GetLog (it is compared with != on the way and is the API's raft.ErrLogNotFound)",
 		Props: []string{"C05", "C06", "C03", "C11"}, Floor: 5, Run: runORD18c})
 	register(&Rule{ID: "ORD-18b", Title: "the 'tail file does not exist' error keeps its os.ErrNotExist identity from the file system up to Open's errors.Is test",
-		Props: []string{"C03", "C01", "C10"}, Floor: 2, Run: runORD18b})
+		Props: []string{"C03", "C01", "C10", "C04"}, Floor: 2, Run: runORD18b})
 }
 
 type errLayer struct {
